@@ -196,7 +196,7 @@ impl Property for P {
         ]
     }
     fn workloads(&self, tier: Tier) -> Vec<Workload> {
-        vec![Workload::new("flows", tier.pick(15_000, 400_000), false, "random flows at depth 0..3")]
+        vec![Workload::new("flows", tier.pick(15_000, 4_000_000), false, "random flows at depth 0..3")]
     }
     fn run_case(&self, wl: &str, idx: u64, seed: u64, rec: &mut Rec) {
         let mut rng = Rng::derive(seed, wl, idx);
